@@ -3,7 +3,11 @@
    drawn from boundary classes per parameter type, over an abstract state that tracks only what the
    predictions need: instance alive, chip count (stored / applied), emulator id, bank set, loaded song,
    volume model in force, master volume, and per MIDI channel the controller values that are used as
-   table indices (volume, expression, patch, XG-percussion flag) plus "a sounding note is surely active".
+   table indices (volume, expression, patch, XG-percussion flag) plus "a sounding note is surely active",
+   and the notes that OUTLIVE a release: a percussion note is kept in MIDIchannel::activenotes for its minimal life
+   time (30 ms of rendered / ticked time) even when panic() / note-off released it ("extended life time"); it keeps
+   the index of its chip channel.  yd = the young drum notes (highest chip channel one of them may hold, remaining
+   life), non = chip channels that may have been handed out since the chips were last re-created.
 
    The model is implementation-shaped where the statement names tables: the guards are transcribed AS
    WRITTEN (Repaired = FALSE) and every table access carries its index-validity condition:
@@ -13,6 +17,11 @@
      switch(emulator) in OPN2::reset emulator in 0..8       (availability test is  1u << emulator)
      m_chips.resize(numChips)        1 <= numChips <= 100   (opn2_setNumChips stores before validating)
      BankMap::reserve(n)             n <= 2*128*128 (number of bank ids that can exist)
+     m_chipChannels[c] of a note     c < 6 * chips          (every path that re-creates the chips drops the active notes:
+                                                             PartialReset / ApplySetup -> DropNotes; a young drum note that
+                                                             survived a lowering of the chip count would be walked by
+                                                             TickIterators / noteUpdate on a destroyed channel)
+     bank.ins[idx] (instrument API)  idx < 128               (opn2_getInstrument / opn2_setInstrument: Ret2, DocFail2)
    Hazards(S, ev) lists the accesses whose condition fails for call ev in state S, each with the label
    of its defect class ("crash@realTime_NoteOn channel=16", ...) and whether the model is SURE that
    the access is executed (otherwise it only may be).  With Repaired = TRUE the guards are the suggested
@@ -79,8 +88,13 @@ SxFramed(b) == Len(b) >= 4 /\ b[1] = 240 /\ b[Len(b)] = 247 /\ \A i \in 2..(Len(
 
 (* ---------------------------------------------------------------- abstract state *)
 Mch0 == [vol |-> 100, expr |-> 127, patch |-> 0, msb |-> 0, xgp |-> FALSE, an |-> -1, av |-> 0]
+\* young drum notes: hi = highest chip channel one of them may occupy (-1: none), ttl = microseconds of life that may be left
+YNone == [hi |-> -1, ttl |-> 0]
+DrumTtl == 30000             \* drum_note_min_time = 0.03 s
+TtlCap == 2000000000         \* "for ever" (a NaN / negative time span never lets the life time run out)
 New(rate) == [alive |-> TRUE, rate |-> rate, craw |-> 2, chips |-> 2, cgood |-> 2, emu |-> 0, banks |-> {}, full |-> {},
-              tempo |-> "norm", loop |-> FALSE,
+              tempo |-> "norm", t1 |-> TRUE, loop |-> FALSE,
+              non |-> 0, yd |-> YNone, ys |-> YNone,
               vset |-> 0, logv |-> 0, scale |-> 0, master |-> 127, mode |-> "XG", arp |-> 0, alloc |-> -1,
               mch |-> [c \in 0..15 |-> Mch0], song |-> "none", fuel |-> 0]
 Dead == [New(44100) EXCEPT !.alive = FALSE]
@@ -100,6 +114,16 @@ Mask7(v) == IF Repaired THEN v % 128 ELSE v           \* suggested repair: store
 ScaleOf(v, cur) == CASE v = 1 -> 0 [] v = 2 -> 1 [] v = 3 -> 2 [] v = 4 -> 3 [] v = 5 -> 4 [] OTHER -> cur
 
 DrumPath(S, c) == c = 9 \/ S.mch[c].xgp
+\* chip channels that exist (OPN2::reset: m_numChannels = m_numChips * 6)
+NChan(S) == 6 * Clamp(S.chips, 0, 101)
+\* a young drum note that holds a chip channel which does not exist (any more): the index-validity condition of every
+\* m_chipChannels[c] / m_chips[c / 6] access of TickIterators -> noteUpdate.  yd is dropped by every step that re-creates the
+\* chips (DropNotes), so this never holds in the model (checked exhaustively by ApiSurfaceMC, both variants)
+StaleYoung(S) == S.yd.ttl > 0 /\ S.yd.hi >= NChan(S)
+\* ... and the same for ys, the young drum notes that the last re-creation of the chips had to drop: if a crash of the memory
+\* classes happens while StaleSurvivor holds, the tree kept them (label of the crash monitor, spec/ApiSurfaceTrace.tla)
+StaleSurvivor(S) == S.alive /\ S.ys.ttl > 0 /\ S.ys.hi >= NChan(S)
+SurvivorLabel == "uaf@reset keeps a young drum note beyond the chip channels"
 SureSnd(S, c) == S.chips >= 1 /\ {0, 32768} \subseteq S.full /\ (DrumPath(S, c) \/ S.mch[c].patch < 128)
 ClampVel(v) == Clamp(v, 1, 127)
 
@@ -122,8 +146,10 @@ CtrlTouching == {0, 1, 5, 6, 7, 10, 11, 32, 37, 38, 64, 65, 66, 67, 74, 98, 99, 
 RtSite == [rt_noteOn |-> "NoteOn", rt_noteOff |-> "NoteOff", rt_noteAfterTouch |-> "NoteAfterTouch",
            rt_channelAfterTouch |-> "ChannelAfterTouch", rt_controllerChange |-> "Controller", rt_patchChange |-> "PatchChange",
            rt_pitchBend |-> "PitchBend", rt_pitchBendML |-> "PitchBend", rt_bankChangeLSB |-> "BankChangeLSB",
-           rt_bankChangeMSB |-> "BankChangeMSB", rt_bankChange |-> "BankChange"]
+           rt_bankChangeMSB |-> "BankChangeMSB", rt_bankChange |-> "BankChange", noteBurst |-> "NoteOn"]
+IsNoteOn(ev) == ev.e \in {"rt_noteOn", "noteBurst"}
 IsRt(ev) == ev.e \in DOMAIN RtSite
+IsRender(ev) == ev.e \in {"play", "playFormat", "generate", "generateFormat"}
 IntTok(n) == IF n = IMIN THEN "INT_MIN" ELSE IF n = IMAX THEN "INT_MAX" ELSE ToString(n)
 
 AssetOk(ev, t) == Assets[ev.a].ok /\ Assets[ev.a].t = t
@@ -154,8 +180,10 @@ Hazards(S, ev) ==
     \o Hz(ev.e = "switchEmulator" /\ EmuAvailable(ev.v) /\ ev.v \notin Supported, "abort", "switchEmulator " \o (IF ev.e = "switchEmulator" THEN IntTok(ev.v) ELSE ""), FALSE)   \* undefined shift: depends on the compiler
     \o Hz(DoesApplySetup(S, ev) /\ ChipsHuge(S.craw), "alloc", "setNumChips " \o IntTok(S.craw), TRUE)
     \o Hz(~Repaired /\ ev.e = "reserveBanks" /\ (ev.n = UMAX \/ ev.n > 1000000), "alloc", "reserveBanks UINT_MAX", TRUE)   \* repair: more than 2*128*128 ids cannot exist -> -1
+    \o Hz(StaleYoung(S) /\ (IsRender(ev) \/ ev.e \in {"tickEvents", "panic", "rt_noteOn", "rt_noteOff", "noteBurst", "rt_resetState"}),
+          "uaf", "TickIterators young drum note beyond the chip channels", FALSE)
     \o (IF chanBad THEN << >>
-        ELSE CASE ev.e = "rt_noteOn" /\ ev.v > 0 ->
+        ELSE CASE IsNoteOn(ev) /\ ev.v > 0 ->
                     Hz(~DrumPath(S, c) /\ S.mch[c].patch >= 128 /\ S.banks # {},
                        "overflow", "realTime_NoteOn patch=" \o ToString(S.mch[c].patch), 0 \in S.banks /\ S.mch[c].patch > 128)   \* &ins[128] is one past the end: not instrumented
                     \o Hz(VolBad(S, c, ClampVel(ev.v), S.master) /\ S.chips >= 1 /\ S.banks # {}, "overflow", VolLabel(S, c),
@@ -174,7 +202,6 @@ Hazards(S, ev) ==
 (* ---------------------------------------------------------------- cost of a call (fuel of a history, time allowance) *)
 CoreK == [i \in 0..8 |-> IF i \in {1, 8} THEN 10 ELSE 1]           \* microseconds per frame and chip at 44.1 kHz (ASan build, measured)
 RateF(rate) == IF rate < 20000 THEN 6 ELSE 1                        \* resampling from the native 53 kHz
-IsRender(ev) == ev.e \in {"play", "playFormat", "generate", "generateFormat"}
 RecreatesChips(ev) == ev.e \in {"setNumChips", "setChipType", "switchEmulator", "setRunAtPcmRate", "reset", "openBankData", "openBankFile", "openData", "openFile"}
 \* chips that may be running: the applied count, or the last accepted one (a repaired setNumChips does not store rejected counts)
 ChipsUp(S) == Clamp(Max(S.chips, S.cgood), 0, 101)
@@ -210,7 +237,7 @@ NullRet == [setNumChips |-> -2, getNumChips |-> -2, getNumChipsObtained |-> -2, 
             getChannelAllocMode |-> -1, openBankFile |-> -1, openBankData |-> -1, switchEmulator |-> -1, setRunAtPcmRate |-> -1,
             setDeviceIdentifier |-> -1, openFile |-> -1, openData |-> -1, getSongsCount |-> 0, atEnd |-> 1, trackCount |-> 0,
             metaTrackTitleCount |-> 0, metaMarkerCount |-> 0, play |-> 0, playFormat |-> 0, generate |-> 0, generateFormat |-> 0,
-            setTrackOptions |-> -1, setChannelEnabled |-> -1, rt_noteOn |-> 0, rt_systemExclusive |-> -1, describeChannels |-> -1]
+            setTrackOptions |-> -1, setChannelEnabled |-> -1, rt_noteOn |-> 0, noteBurst |-> 0, rt_systemExclusive |-> -1, describeChannels |-> -1]
 
 Ret(S, ev) ==
   IF ev.e \in {"Init", "reinit"} THEN 1
@@ -245,6 +272,11 @@ Ret(S, ev) ==
     [] ev.e = "rt_noteOn" -> IF ChanIdx(ev.ch) >= NMch \/ S.song = "srsxx" THEN NoPred      \* RSXX mode: a re-struck sounding key is only an after-touch (returns 0)
                              ELSE IF ev.v = 0 THEN 0 ELSE IF S.chips < 1 \/ S.banks = {} THEN 0
                              ELSE IF SureSnd(S, ChanIdx(ev.ch)) THEN 1 ELSE NoPred
+    \* noteBurst = cnt x opn2_rt_noteOn at once (keys k, k+1, ... modulo 128): r = how many of them returned 1.  All of them do
+    \* while chip channels that were never handed out are left
+    [] ev.e = "noteBurst" -> IF ChanIdx(ev.ch) >= NMch \/ S.song = "srsxx" THEN NoPred
+                             ELSE IF ev.v = 0 \/ ev.cnt <= 0 THEN 0 ELSE IF S.chips < 1 \/ S.banks = {} THEN 0
+                             ELSE IF SureSnd(S, ChanIdx(ev.ch)) /\ S.non + ev.cnt <= NChan(S) THEN ev.cnt ELSE NoPred
     [] ev.e = "rt_systemExclusive" -> IF ~SxFramed(ev.bytes) THEN 0 ELSE IF Sx[ev.x].eff # "none" THEN 1 ELSE 0
     [] ev.e = "describeChannels" -> 0
     [] OTHER -> NoPred
@@ -277,27 +309,68 @@ DocFail2(S, ev) ==      \* getBank-then-op: "nth instrument in the bank [0..127]
 DocHolds(kind, r) == CASE kind = "neg" -> r < 0 [] kind = "zero" -> r = 0 [] OTHER -> TRUE
 
 (* ---------------------------------------------------------------- transition function *)
+\* panic() / note-offs / controller resets: every key is released, but a percussion note inside its minimal life time is only
+\* marked "on extended life time" and stays in activenotes with its chip channel (yd is left alone; CC120 / CC123 do cut the
+\* notes of their channel at once, yd is an upper bound and ignores that)
 AllOff(S) == [S EXCEPT !.mch = [c \in 0..15 |-> [S.mch[c] EXCEPT !.an = -1]]]
+\* dropActiveNotes() after m_chipChannels was rebuilt: no note of the old chip set survives.  ys remembers what had to go
+YMax(a, b) == IF a.ttl <= 0 THEN b ELSE IF b.ttl <= 0 THEN a ELSE [hi |-> Max(a.hi, b.hi), ttl |-> Max(a.ttl, b.ttl)]
+DropNotes(S) == [S EXCEPT !.ys = YMax(S.yd, @), !.yd = YNone, !.non = 0]
 ApplySetup(S) ==
   LET n == IF S.craw \in 0..100000 THEN S.craw ELSE S.chips          \* (a huge count never gets here: the call dies)
       sc == IF S.vset = 0 THEN 0 ELSE IF S.logv # 0 THEN 1 ELSE ScaleOf(S.vset, S.scale)
-  IN AllOff([S EXCEPT !.chips = IF S.emu = VGM /\ n > 2 THEN 2 ELSE n, !.scale = sc])
-PartialReset(S) == AllOff([S EXCEPT !.chips = IF S.emu = VGM /\ @ > 2 THEN 2 ELSE @])
+  IN DropNotes(AllOff([S EXCEPT !.chips = IF S.emu = VGM /\ n > 2 THEN 2 ELSE n, !.scale = sc]))
+\* partialReset(): realTime_panic (which leaves the young drum notes alive), chips re-created, dropActiveNotes
+PartialReset(S) == DropNotes(AllOff([S EXCEPT !.chips = IF S.emu = VGM /\ @ > 2 THEN 2 ELSE @]))
+\* ageing of the young drum notes by TickIterators(s): us microseconds (a LOWER bound of the time that passed, so that ttl stays an
+\* upper bound; negative: opn2_tickEvents(-1) makes them younger; TtlCap: NaN, never runs out)
+AgeY(y, us) == IF y.ttl <= 0 THEN YNone ELSE IF y.ttl >= TtlCap THEN y
+               ELSE IF us <= -TtlCap THEN [y EXCEPT !.ttl = TtlCap]
+               ELSE LET t == y.ttl - us IN IF t <= 0 THEN YNone ELSE [y EXCEPT !.ttl = Min(t, TtlCap)]
+Age(S, us) == [S EXCEPT !.yd = AgeY(@, us), !.ys = AgeY(@, us)]
 ResetMIDI(S) == [S EXCEPT !.master = 127, !.mode = "XG", !.mch = [c \in 0..15 |-> Mch0]]
 ResetState(S) == [S EXCEPT !.master = 127,
                            !.mch = [c \in 0..15 |-> [S.mch[c] EXCEPT !.vol = 100, !.expr = 127, !.an = -1,
                                                                       !.xgp = IF S.mode = "GS" THEN FALSE ELSE @]]]
 R(ev) == IF Has(ev, "r") THEN ev.r ELSE NoPred
 R2(ev) == IF Has(ev, "r2") THEN ev.r2 ELSE NoPred
+\* time (microseconds, lower bound) that TickIterators sees in a rendering call: samples / 2 frames at the output rate ...
+RenderUs(S, ev) ==
+  LET n == IF ev.e \in {"playFormat", "generateFormat"} /\ ~FmtOk(ev.type, ev.cs) THEN 0
+           ELSE IF ev.e \in {"play", "playFormat"} /\ Has(ev, "r") THEN Max(ev.r, 0) ELSE Even(Max(ev.n, 0))
+  IN ((Min(n, 200000) \div 2) * 1000) \div ((S.rate \div 1000) + 1)
+\* ... and in opn2_tickEvents(s, g): s times the tempo multiplier
+TickUs(S, ev) ==
+  CASE ev.s = "neg1" -> IF S.t1 THEN -1000000 ELSE -TtlCap
+    [] ev.s = "nan" -> -TtlCap
+    [] ~S.t1 -> 0
+    [] ev.s = "small" -> 10000
+    [] ev.s \in {"one", "huge", "inf"} -> 1000000
+    [] OTHER -> 0
 
+\* n note-ons that may have been placed on chip channels (each note takes one): the channels handed out so far are an upper
+\* bound of the highest index in use (a released channel scores lower than one never used, so new notes climb); a drum note
+\* (MIDI channel 9 or XG percussion mode) starts its minimal life time
+Placed(S, c, n) ==
+  IF n <= 0 \/ S.chips < 1 \/ S.banks = {} THEN S
+  ELSE LET m == Min(S.non + n, NChan(S)) IN
+       IF DrumPath(S, c) THEN [S EXCEPT !.non = m, !.yd = [hi |-> Max(S.yd.hi, m - 1), ttl |-> Max(S.yd.ttl, DrumTtl)]]
+       ELSE [S EXCEPT !.non = m]
+BurstKeys(ev) == { (ev.k + i) % 128 : i \in 0..(ev.cnt - 1) }
 StepRt(S, ev) ==
   LET c == ChanIdx(ev.ch) IN
   IF c >= NMch THEN S
   ELSE CASE ev.e = "rt_noteOn" ->
-              LET k == Min(ev.k, 127) IN
+              LET k == Min(ev.k, 127)
+                  S0 == IF ev.v > 0 /\ R(ev) # 0 THEN Placed(S, c, 1) ELSE S IN
               IF ev.v = 0 THEN (IF S.mch[c].an = k THEN [S EXCEPT !.mch[c].an = -1] ELSE S)
-              ELSE IF R(ev) = 1 /\ SureSnd(S, c) THEN [S EXCEPT !.mch[c].an = k, !.mch[c].av = ClampVel(ev.v)]
-              ELSE IF S.mch[c].an = k THEN [S EXCEPT !.mch[c].an = -1] ELSE S
+              ELSE IF R(ev) = 1 /\ SureSnd(S, c) THEN [S0 EXCEPT !.mch[c].an = k, !.mch[c].av = ClampVel(ev.v)]
+              ELSE IF S.mch[c].an = k THEN [S0 EXCEPT !.mch[c].an = -1] ELSE S0
+         [] ev.e = "noteBurst" ->
+              LET S0 == IF ev.v > 0 /\ R(ev) # 0 THEN Placed(S, c, IF R(ev) = NoPred THEN ev.cnt ELSE Min(R(ev), ev.cnt)) ELSE S IN
+              IF ev.cnt <= 0 THEN S
+              ELSE IF ev.v > 0 /\ R(ev) = ev.cnt /\ SureSnd(S, c) THEN [S0 EXCEPT !.mch[c].an = (ev.k + ev.cnt - 1) % 128, !.mch[c].av = ClampVel(ev.v)]
+              ELSE IF S.mch[c].an \in BurstKeys(ev) THEN [S0 EXCEPT !.mch[c].an = -1] ELSE S0
          [] ev.e = "rt_noteOff" -> IF S.mch[c].an = ev.k THEN [S EXCEPT !.mch[c].an = -1] ELSE S
          [] ev.e = "rt_patchChange" -> [S EXCEPT !.mch[c].patch = Mask7(ev.p)]
          [] ev.e = "rt_bankChangeMSB" -> [S EXCEPT !.mch[c].msb = ev.v]
@@ -328,8 +401,9 @@ Step(S, ev) ==
     [] ev.e = "setLoopEnabled" -> [S EXCEPT !.loop = ev.v # 0]
     \* tempo <= 0, NaN and multipliers beyond 1e6 are ignored (8786f57; before that repair huge / inf made every tick "fast"
     \* and opn2_play never returned on a looping song)
-    [] ev.e = "setTempo" -> IF ev.t \in {"huge", "inf", "nan"} THEN (IF Repaired THEN S ELSE [S EXCEPT !.tempo = "fast"])
-                            ELSE IF ev.t \in {"neg1", "zero", "ninf"} THEN S ELSE [S EXCEPT !.tempo = "norm"]
+    \* (t1: the multiplier is surely 1.0, so that a tick of s seconds ages the notes by s)
+    [] ev.e = "setTempo" -> IF ev.t \in {"huge", "inf", "nan"} THEN (IF Repaired THEN S ELSE [S EXCEPT !.tempo = "fast", !.t1 = FALSE])
+                            ELSE IF ev.t \in {"neg1", "zero", "ninf"} THEN S ELSE [S EXCEPT !.tempo = "norm", !.t1 = (ev.t = "one")]
     [] ev.e \in {"openBankData", "openBankFile"} ->
          IF R(ev) = 0 /\ Assets[ev.a].t = "bank"
          THEN ApplySetup([S EXCEPT !.banks = Assets[ev.a].keys, !.full = Assets[ev.a].full, !.vset = 0]) ELSE S
@@ -342,7 +416,14 @@ Step(S, ev) ==
     [] ev.e \in {"rt_resetState"} -> ResetState(S)
     [] ev.e \in {"panic", "positionRewind"} -> AllOff(S)
     [] ev.e = "positionSeek" -> IF ev.t \in {"neg1", "ninf"} THEN S ELSE AllOff(S)
-    [] ev.e \in {"play", "playFormat", "tickEvents"} -> IF S.song # "none" THEN AllOff(S) ELSE S
+    [] ev.e \in {"generate", "generateFormat"} -> Age(S, RenderUs(S, ev))
+    [] ev.e \in {"play", "playFormat"} -> Age(IF S.song # "none" THEN AllOff(S) ELSE S, RenderUs(S, ev))
+    \* a time span the sequencer could not work off (huge / inf on a loaded song: the anti-freeze limit of 10000 rows stops the
+    \* call) is dropped since 7bb6d7a; before that repair the position's wait stayed at -inf, every later tick ran into the limit
+    \* again ("fast" for good) and opn2_play on a looping song never returned
+    [] ev.e = "tickEvents" ->
+         LET S1 == Age(IF S.song # "none" THEN AllOff(S) ELSE S, TickUs(S, ev)) IN
+         IF ~Repaired /\ S.song # "none" /\ ev.s \in {"huge", "inf"} THEN [S1 EXCEPT !.tempo = "fast"] ELSE S1
     [] ev.e = "setChannelEnabled" -> IF ev.i >= 0 /\ ev.i <= 15 /\ ev.v = 0 THEN [S EXCEPT !.mch[ev.i].an = -1] ELSE S
     [] ev.e = "selectSongNum" -> S
     [] ev.e = "getBank" ->
@@ -375,6 +456,9 @@ VolMC  == {-1, 0, 1, 2, 3, 4, 5, 6, 255, IMAX}
 AllocC == {IMIN, -2, -1, 0, 1, 2, 3, 255}
 DblC   == {"neg1", "zero", "tiny", "small", "one", "huge", "nan", "inf"}
 IdxC(count) == {0, count - 1, count, UMAX} \ {-2}
+\* instrument index of a bank (unsigned): the last valid one, the first invalid ones, byte / word / sign boundaries
+InsIdxC == {0, 1, 127, 128, 129, 255, 256, 1000, 65536, IMAX, IMIN, UMAX}
+BurstC == {1, 6, 7, 12, 13, 16, 49, 128}        \* simultaneous note-ons: around 6 channels x 1 / 2 chips, more than 8 chips have
 RateC  == {8000, 44100, 53267, 192000}
 BankIds == { <<0, 0, 0>>, <<1, 0, 0>>, <<0, 1, 0>>, <<0, 127, 127>>, <<1, 0, 1>>, <<0, 128, 0>>, <<0, 0, 255>>, <<2, 0, 0>>, <<255, 255, 255>>, <<0, 5, 7>> }
 
@@ -384,7 +468,7 @@ Par(S, f) ==
     [] f = "setNumChips" -> [n |-> ChipC]
     [] f = "reserveBanks" -> [n |-> {0, 1, 8, UMAX}]
     [] f = "getBank" -> [id |-> BankIds, flags |-> {0, 1, 3, 2, -1}, then |-> {"none", "id", "remove", "getIns", "setIns", "next"},
-                         idx |-> {0, 127, 128, UMAX}, ver |-> {0, 1, -1}, fl |-> {0, 2, 255}]
+                         idx |-> InsIdxC, ver |-> {0, 1, -1}, fl |-> {0, 2, 255}]
     [] f = "iterBanks" -> [max |-> {64}]
     [] f \in {"setLfoEnabled", "setScaleModulators", "setFullRangeBrightness", "setAutoArpeggio", "setLoopEnabled", "setLoopHooksOnly",
               "setSoftPanEnabled", "setLogarithmicVolumes", "setRunAtPcmRate"} -> [v |-> BoolC]
@@ -409,6 +493,7 @@ Par(S, f) ==
     [] f = "setTrackOptions" -> [i |-> IdxC(SongOf(S).tracks), opt |-> {0, 1, 2, 3, 4, 7, UMAX}]
     [] f = "setChannelEnabled" -> [i |-> {0, 9, 15, 16, UMAX}, v |-> {0, 1, -1}]
     [] f = "rt_noteOn" -> [ch |-> ChanC, k |-> ValC, v |-> ValC]
+    [] f = "noteBurst" -> [ch |-> ChanC, k |-> {0, 35, 100, 127}, cnt |-> BurstC, v |-> {0, 1, 127, 255}]
     [] f = "rt_noteOff" -> [ch |-> ChanC, k |-> ValC]
     [] f = "rt_noteAfterTouch" -> [ch |-> ChanC, k |-> ValC, v |-> ValC]
     [] f = "rt_channelAfterTouch" -> [ch |-> ChanC, v |-> ValC]
@@ -440,6 +525,7 @@ Nv(S, f) ==
     [] f = "setTrackOptions" -> [i |-> 0, opt |-> 1]
     [] f = "setChannelEnabled" -> [i |-> 0, v |-> 1]
     [] f = "rt_noteOn" -> [ch |-> 0, k |-> 64, v |-> 127]
+    [] f = "noteBurst" -> [ch |-> 9, k |-> 35, cnt |-> 13, v |-> 127]
     [] f = "rt_noteOff" -> [ch |-> 0, k |-> 64]
     [] f = "rt_noteAfterTouch" -> [ch |-> 0, k |-> 64, v |-> 64]
     [] f = "rt_channelAfterTouch" -> [ch |-> 0, v |-> 64]
@@ -459,7 +545,8 @@ Nv(S, f) ==
     [] OTHER -> [nd |-> 0]
 
 \* the 90 exported functions (getBankId/removeBank/getInstrument/setInstrument/getNextBank run as getBank-then-<op>,
-\* getFirstBank+getNextBank+getBankId as iterBanks; opn2_init = Init/reinit)
+\* getFirstBank+getNextBank+getBankId as iterBanks; opn2_init = Init/reinit) and one compound call: noteBurst = cnt note-ons
+\* of opn2_rt_noteOn without anything in between (simultaneous notes: what fills the chip channels of several chips)
 Fns == << "reinit", "close", "setNumChips", "getNumChips", "getNumChipsObtained", "reserveBanks", "getBank", "iterBanks",
           "setLfoEnabled", "getLfoEnabled", "setLfoFrequency", "getLfoFrequency", "setChipType", "getChipType", "setScaleModulators",
           "setFullRangeBrightness", "setAutoArpeggio", "getAutoArpeggio", "setLoopEnabled", "setLoopCount", "setLoopHooksOnly",
@@ -469,7 +556,7 @@ Fns == << "reinit", "close", "setNumChips", "getNumChips", "getNumChipsObtained"
           "selectSongNum", "getSongsCount", "reset", "totalTimeLength", "loopStartTime", "loopEndTime", "positionTell", "positionSeek",
           "positionRewind", "setTempo", "atEnd", "trackCount", "metaMusicTitle", "metaMusicCopyright", "metaTrackTitleCount",
           "metaTrackTitle", "metaMarkerCount", "metaMarker", "play", "playFormat", "generate", "generateFormat", "tickEvents",
-          "setTrackOptions", "setChannelEnabled", "panic", "rt_resetState", "rt_noteOn", "rt_noteOff", "rt_noteAfterTouch",
+          "setTrackOptions", "setChannelEnabled", "panic", "rt_resetState", "rt_noteOn", "noteBurst", "rt_noteOff", "rt_noteAfterTouch",
           "rt_channelAfterTouch", "rt_controllerChange", "rt_patchChange", "rt_pitchBend", "rt_pitchBendML", "rt_bankChangeLSB",
           "rt_bankChangeMSB", "rt_bankChange", "rt_systemExclusive", "setRawEventHook", "setNoteHook", "setDebugMessageHook",
           "setLoopStartHook", "setLoopEndHook", "describeChannels" >>
@@ -483,6 +570,16 @@ Mk(f, p) ==
            ELSE q
   IN [e |-> f] @@ b
 
+\* parameters that only reach the library under a selector value of another parameter are swept under each such value:
+\* getBank-then-getIns / -setIns use idx (and setIns ver, fl); with then = "none" they are not even read
+SweepDep(f, P, nv) ==
+  IF f = "getBank"
+  THEN { Mk(f, [nv EXCEPT !.then = t, !.idx = x]) : t \in {"getIns", "setIns"}, x \in P.idx }
+       \cup { Mk(f, [nv EXCEPT !.then = "setIns", !.idx = x, !.id = <<1, 0, 0>>]) : x \in P.idx }
+       \cup { Mk(f, [nv EXCEPT !.then = "setIns", !.ver = x]) : x \in P.ver }
+       \cup { Mk(f, [nv EXCEPT !.then = "setIns", !.fl = x]) : x \in P.fl }
+       \cup { Mk(f, [nv EXCEPT !.then = t, !.flags = x]) : t \in {"remove", "getIns", "setIns"}, x \in P.flags }
+  ELSE {}
 \* one parameter at a time over its classes (all others ordinary); all pairs for the two-parameter functions with at most 64
 \* combinations (tickEvents, noteOff, patchChange, ...); plus the NULL-device variant
 Sweep(S, f) ==
@@ -494,6 +591,7 @@ Sweep(S, f) ==
   IN
   { Mk(f, [nv EXCEPT ![k] = x]) : <<k, x>> \in UNION { { <<kk, xx>> : xx \in P[kk] } : kk \in DOMAIN P } }
   \cup pairs
+  \cup SweepDep(f, P, nv)
   \cup (IF f \in {"reinit"} THEN {} ELSE { Mk(f, nv) @@ [nd |-> 1] })
 \* a call with every parameter drawn from its classes by the seed sd (0 <= sd < 10^6); pure, so that one random draw
 \* made by the caller fixes the whole call (TLC re-evaluates RandomElement at every reference)
